@@ -38,7 +38,7 @@ fn for_c13(o: Op) -> Option<Op> {
         Op::Inbound(k) => Op::Inbound(k % 4),
         Op::Ack { n, batch } => Op::Ack { n: 1 + n % 3, batch },
         Op::Yield(k) => Op::Yield(k % 4),
-        o @ (Op::Poll(_) | Op::DropFut(_) | Op::Window(_) | Op::Settle | Op::Release(_)) => o,
+        o @ (Op::Poll(_) | Op::DropFut(_) | Op::Window(_) | Op::Settle | Op::Release(_) | Op::Hold(_)) => o,
         _ => return None,
     })
 }
@@ -94,7 +94,7 @@ fuzz_target!(|data: &[u8]| {
         }
         1 => {
             let ops: Vec<Op> = raw.into_iter().filter_map(for_c13).collect();
-            let c = c13::Case { role, limit, ops, pre: Vec::new(), neg: data[3] & 1 != 0 && role.is_v5(), hold_bp: data[3] & 4 != 0 };
+            let c = c13::Case { role, limit, ops, pre: Vec::new(), neg: data[3] & 1 != 0 && role.is_v5(), hold_bp: data[3] & 4 != 0, busy_reader: data[3] & 8 != 0 };
             c13::check_case(&c).map_err(|f| ("C13", f.with_case(serde_json::json!({"case": c}))))
         }
         2 => {
